@@ -63,19 +63,28 @@ def run_case(rng, kind, c, pos, n, rank, bshape=(), mixed=False):
         ins = [rng.standard_normal(b + (dd,)*rank) for b, dd in zip(mixed[1:], dims_i)]
     run_case.last_mixed = [list(b) for b in mixed] if mixed else None
     arr = util.tensor(*ch, rank=rank)
+    # positions are handed over as a list or (every other multi-position request) as an integer
+    # ndarray, which must come back unchanged
+    run_case.calls = getattr(run_case, 'calls', 0) + 1
+    pos_in = np.array(pos, dtype=int) if (len(pos) > 1 and run_case.calls % 2) else list(pos)
+    pos = pos_in
+    pos_before = np.array(pos_in, dtype=int).copy()
     try:
         if kind == 'tinsert':
-            out = util.tensor_insert(arr, *ins, pos=list(pos), arr_dims=[dims_c]*rank, rank=rank)
+            out = util.tensor_insert(arr, *ins, pos=pos, arr_dims=[dims_c]*rank, rank=rank)
         elif kind == 'tinsert_int':
             out = util.tensor_insert(arr, *ins, pos=int(pos[0]), arr_dims=[dims_c]*rank, rank=rank)
         elif kind == 'tmerge':
-            out = util.tensor_merge(arr, util.tensor(*ins, rank=rank), pos=list(pos),
+            out = util.tensor_merge(arr, util.tensor(*ins, rank=rank), pos=pos,
                                     arr_dims=[dims_c]*rank, ins_dims=[dims_i]*rank, rank=rank)
         else:
             out = util.tensor_transpose(arr, list(pos), arr_dims=[dims_c]*rank, rank=rank)
         res = ('ok', out)
     except (IndexError, ValueError, ZeroDivisionError, TypeError) as e:
         res = ('err', type(e).__name__)
+    if not np.array_equal(np.array(pos_in, dtype=int), pos_before):
+        res = ('err', f'the position array of the caller was modified: {pos_before.tolist()} -> '
+                      f'{np.array(pos_in).tolist()}')
     return ch, ins, res
 
 
@@ -274,6 +283,7 @@ def replay(ctx, check, case):
         return check_pauli_maps(ctx, case)
     rng = np.random.default_rng(0)
     kind, c, pos, n, rank = case['kind'], case['c'], case['pos'], case['n'], case['rank']
+    run_case.calls = 0      # (multi-position requests are replayed with an ndarray of positions)
     ch, ins, res = run_case(rng, kind, c, pos, n, rank, mixed=case.get('mixed') or False)
     exp = oracle_order(kind, c, pos, n)
     if exp is None:
